@@ -142,7 +142,7 @@ fn term(rng: &mut StdRng, depth: u32) -> J {
             11 => json!({"k": "f64", "f": f64_to_model(f64::from_bits(rng.gen()))}),
             12 => json!({"k": "f32", "f": f64_to_model(f32::from_bits(rng.gen()) as f64)}),
             13 => { let c = [97u32, 233, 128512, 0x4e2d][rng.gen_range(0..4)]; json!({"k": "char", "c": c}) }
-            14 => { let t = ["", "k", "hé", "a b"][rng.gen_range(0..4)]; json!({"k": "str", "cs": cps(t)}) }
+            14 => { let t = ["", "k", "hé", "a b", "2015-07-30T03:26:13Z", "2024-03-10T08:30:00+02:00", "1.5", "true", "none", "i1", "PT1S", "éééééééééééééééééééééééééééééééééééé", "aéééééééééééééééééééééééééééééééééééé"][rng.gen_range(0..13)]; json!({"k": "str", "cs": cps(t)}) }
             15 => json!({"k": "bytes", "bs": (0..rng.gen_range(0..4)).map(|_| rng.gen::<u8>()).collect::<Vec<_>>()}),
             16 => [json!({"k": "none"}), json!({"k": "unit"}), json!({"k": "unit_struct", "name": cps("U")}), json!({"k": "unit_variant", "name": cps("E"), "variant": cps("A")})][rng.gen_range(0..4)].clone(),
             _ => json!({"k": "fail", "msg": cps("nope")}),
@@ -152,8 +152,8 @@ fn term(rng: &mut StdRng, depth: u32) -> J {
         return leaf(rng);
     }
     let d = depth - 1;
-    let n = rng.gen_range(0..4);
-    let key = |rng: &mut StdRng| -> J { if rng.gen_bool(0.9) { let t = ["a", "b", "k", ""][rng.gen_range(0..4)]; json!({"k": "str", "cs": cps(t)}) } else { term(rng, 0) } };
+    let n = if rng.gen_bool(0.15) { rng.gen_range(4..10) } else { rng.gen_range(0..4) };
+    let key = |rng: &mut StdRng| -> J { if rng.gen_bool(0.9) { let t = ["a", "b", "k", "", "z", "m", "aa", "A", "key with spaces", "y"][rng.gen_range(0..10)]; json!({"k": "str", "cs": cps(t)}) } else { term(rng, 0) } };
     match rng.gen_range(0..11) {
         0 => json!({"k": "some", "x": term(rng, d)}),
         1 => json!({"k": "newtype_struct", "name": cps("N"), "x": term(rng, d)}),
@@ -162,9 +162,9 @@ fn term(rng: &mut StdRng, depth: u32) -> J {
         4 => json!({"k": "tuple", "xs": (0..n).map(|_| term(rng, d)).collect::<Vec<_>>()}),
         5 => json!({"k": "tuple_struct", "name": cps("T"), "xs": (0..n).map(|_| term(rng, d)).collect::<Vec<_>>()}),
         6 => json!({"k": "tuple_variant", "name": cps("E"), "variant": cps("T"), "xs": (0..n).map(|_| term(rng, d)).collect::<Vec<_>>()}),
-        7 | 8 => json!({"k": "map", "kv": (0..n).map(|_| json!([key(rng), term(rng, d)])).collect::<Vec<_>>()}),
-        9 => json!({"k": "struct", "name": cps("S"), "fields": (0..n).map(|i| json!([cps(["z", "a", "m"][i]), term(rng, d)])).collect::<Vec<_>>()}),
-        _ => json!({"k": "struct_variant", "name": cps("E"), "variant": cps("SV"), "fields": (0..n).map(|i| json!([cps(["z", "a", "m"][i]), term(rng, d)])).collect::<Vec<_>>()}),
+        7 | 8 => json!({"k": if rng.gen_bool(0.35) { "mapkv" } else { "map" }, "kv": (0..n).map(|_| json!([key(rng), term(rng, d)])).collect::<Vec<_>>()}),
+        9 => json!({"k": "struct", "name": cps("S"), "fields": (0..n).map(|i| json!([cps(["z", "a", "m", "b", "zz", "k", "a", "c", "y"][i]), term(rng, d)])).collect::<Vec<_>>()}),
+        _ => json!({"k": "struct_variant", "name": cps("E"), "variant": cps("SV"), "fields": (0..n).map(|i| json!([cps(["z", "a", "m", "b", "zz", "k", "a", "c", "y"][i]), term(rng, d)])).collect::<Vec<_>>()}),
     }
 }
 
@@ -204,15 +204,15 @@ pub fn record_builder(seed: u64, n: usize) -> Result<Vec<J>, String> {
     use std::collections::BTreeMap;
     use std::sync::Arc;
     let mut rng = StdRng::seed_from_u64(seed);
-    let rule_names = ["r1", "r2", "r3", "r 4", "", "R1"];
+    let rule_names = ["r1", "r2", "r3", "r 4", "", "R1", "rule 01", "rule 02", "rule 03", "rule 04", "rule 05", "rule 06", "rule 07", "rule 08", "rule 09", "rule 10", "rule 11", "r10", "r11"];
     let fn_names = ["f", "g", "fn1", "_x", "if", "second", "_-", "1x", "é1", "facts"];
-    let sym_names = ["s", "t", "S"];
+    let sym_names = ["s", "t", "S", "s01", "s02", "s03", "s04", "s05", "s06", "s07", "s08", "s09", "s10", "s11", "s12", "val", "key"];
     let mut recs = Vec::new();
     for _ in 0..n {
         let log = Arc::new(Log::default());
         let rule_j = |rng: &mut StdRng| -> J { let nm = rule_names[rng.gen_range(0..rule_names.len())]; json!({"name": cps(nm), "expr": expr_to_model(&Expr::value(nm.to_string()))}) };
         let fn_j = |rng: &mut StdRng| -> J { json!({"name": cps(fn_names[rng.gen_range(0..fn_names.len())]), "cacheable": true, "suspend": 0, "script": [{"r": "echo"}]}) };
-        let len = rng.gen_range(0..=30);
+        let len = if rng.gen_bool(0.2) { rng.gen_range(30..=70) } else { rng.gen_range(0..=30) };
         let mut ops: Vec<J> = Vec::new();
         let mut accepted: Vec<usize> = Vec::new();
         let mk_rule = |j: &J| -> Result<Rule, String> { Ok(Rule::new(uncps(&j["name"])?, BTreeMap::new(), expr_from_model(&j["expr"])?)) };
@@ -238,11 +238,11 @@ pub fn record_builder(seed: u64, n: usize) -> Result<Vec<J>, String> {
         for _ in 0..len {
             let mut o = match rng.gen_range(0..6) {
                 0 => json!({"op": "with_rule", "rule": rule_j(&mut rng)}),
-                1 => json!({"op": "with_rules", "rules": (0..rng.gen_range(0..3)).map(|_| rule_j(&mut rng)).collect::<Vec<_>>()}),
+                1 => json!({"op": "with_rules", "rules": (0..if rng.gen_bool(0.1) { rng.gen_range(8..14) } else { rng.gen_range(0..3) }).map(|_| rule_j(&mut rng)).collect::<Vec<_>>()}),
                 2 => json!({"op": "with_function", "f": fn_j(&mut rng)}),
                 3 => json!({"op": "with_functions", "fs": (0..rng.gen_range(0..3)).map(|_| fn_j(&mut rng)).collect::<Vec<_>>()}),
-                4 => json!({"op": "with_symbol", "n": cps(sym_names[rng.gen_range(0..3)]), "v": to_model(&Value::Int(rng.gen_range(0..50)))}),
-                _ => json!({"op": "with_symbols", "tab": (0..rng.gen_range(0..3)).map(|_| json!([cps(sym_names[rng.gen_range(0..3)]), to_model(&Value::Int(rng.gen_range(50..99)))])).collect::<Vec<_>>()}),
+                4 => json!({"op": "with_symbol", "n": cps(sym_names[rng.gen_range(0..sym_names.len())]), "v": to_model(&Value::Int(rng.gen_range(0..50)))}),
+                _ => json!({"op": "with_symbols", "tab": (0..if rng.gen_bool(0.15) { rng.gen_range(33..60) } else { rng.gen_range(0..3) }).map(|_| json!([cps(sym_names[rng.gen_range(0..sym_names.len())]), to_model(&Value::Int(rng.gen_range(50..9999)))])).collect::<Vec<_>>()}),
             };
             let res = apply(b, &o, &log)?;
             match res {
